@@ -138,20 +138,20 @@ def mainCodec (T : Tables) : Codec Nat Nat where
   rd := fun v raw _ => raw (T.view v).main
   wr := fun v x _ raw l => if l ∈ (T.view v).clears then x else raw l
 
-theorem mainCodec_laws (T : Tables) (hwf : WF T = true) : Laws T (mainCodec T) where
+theorem C10_nonvacuous_laws (T : Tables) (hwf : WF T = true) : Laws T (mainCodec T) where
   rd_frame := fun v hv raw raw' _ _ hr _ => hr _ (by simp [main_mem_clears T hwf v hv])
   wr_frame := fun _ _ _ _ _ _ _ => rfl
   roundtrip := fun v hv raw env raw₁ _ => by
     simp [mainCodec, applyWr, main_mem_clears T hwf v hv]
   aux_stable := fun v _ raw env raw₁ _ l _ hnc => by simp [mainCodec, hnc]
 
-theorem mainCodec_canon (T : Tables) : Canon T (mainCodec T) :=
+theorem C10_nonvacuous_canon (T : Tables) : Canon T (mainCodec T) :=
   fun v _ x env raw raw' l hl => by simp [mainCodec, hl]
 
 /-- the hypotheses of `C10_content` are satisfiable at the current tables, with a non-constant file. -/
 example : Laws Gen.Bsp.tables (mainCodec Gen.Bsp.tables) ∧
     IsEnv Gen.Bsp.tables (mainCodec Gen.Bsp.tables) (fun l => l + 100) (fun v => (Gen.Bsp.tables.view v).main + 100) :=
-  ⟨mainCodec_laws _ C10_gen_wf, fun _ _ => rfl⟩
+  ⟨C10_nonvacuous_laws _ C10_gen_wf, fun _ _ => rfl⟩
 
 /-- reading `water_leaf_info` (9) then `faces` (15) and saving, on the current tables: cache empty. -/
 example : (save Gen.Bsp.tables (mainCodec Gen.Bsp.tables)
